@@ -257,6 +257,16 @@ def _opt_is_none_or(ctx, o, clos):
     return b_or(b_not(c), v)
 
 
+@model(r'^<.* as std::ops::(Fn|FnMut|FnOnce)<\(.*\)>>::(call|call_mut|call_once)$')
+def _fn_trait_call(ctx, clos, args):
+    r = ctx.ex.call_closure(clos, list(args) if isinstance(args, tuple) else [args], ctx.st, ctx.where)
+    if r is None:
+        return X.DIVERGE
+    v, st2 = r
+    ctx.st = st2
+    return v
+
+
 @model(r'^std::option::Option::<.*>::filter::<.*>$')
 def _opt_filter(ctx, o, clos):
     c = opt_is_some(o)
@@ -294,6 +304,8 @@ def _str_bytes(ctx, s):
     s = as_str(ctx, s)
     if hasattr(s, 'bytes_model'):
         return s.bytes_model(ctx)
+    if not isinstance(s, StrV):
+        raise Unsupported('bytes of %r' % (s,))
     return IterV(tuple((True, CI(b, 8)) for b in s.s.encode()))
 
 
@@ -307,6 +319,8 @@ def _str_as_bytes(ctx, s):
     s = as_str(ctx, s)
     if hasattr(s, 'as_bytes_model'):
         return s.as_bytes_model(ctx)
+    if not isinstance(s, StrV):
+        raise Unsupported('as_bytes of %r' % (s,))
     return ctx.ex.alloc(ctx.st, Seq.of([CI(b, 8) for b in s.s.encode()]))
 
 
